@@ -281,10 +281,13 @@ fn check19(c: &Case19) -> CheckResult {
     });
     let got = match got {
         Ok(g) => g,
-        Err(_) => {
-            out.label("analysis-panicked(skipped)");
+        Err(e) if e.contains("verif-step-budget") => {
+            out.label("step-budget-exhausted(skipped)");
             return Ok(out);
         }
+        // a panic is neither the value nor the Err the property demands (the crate's debug-only
+        // cross-checks fire exactly when the release build would return a wrong result)
+        Err(e) => return Err(format!("ecrts19 analysis panicked: {} (limit {})", e, limit)),
     };
     let name = match c.call {
         Call19::EventSource => "rta_event_source",
@@ -510,10 +513,11 @@ fn check21(c: &Case21) -> CheckResult {
     });
     let got = match got {
         Ok(g) => g,
-        Err(_) => {
-            out.label("analysis-panicked(skipped)");
+        Err(e) if e.contains("verif-step-budget") => {
+            out.label("step-budget-exhausted(skipped)");
             return Ok(out);
         }
+        Err(e) => return Err(format!("{} panicked: {} (limit {})", if c.use_bw { "bw::rta_subchain" } else { "rr::rta_subchain" }, e, limit)),
     };
     let name = if c.use_bw { "bw::rta_subchain" } else { "rr::rta_subchain" };
     compare(name, got, &exp, limit)?;
